@@ -390,12 +390,18 @@ def fuse_pit_modules(mod: fx.GraphModule, fold_bn: bool) -> None:
     :param fold_bn: flag to fold the bn layer into the linear/conv layer
     :type fold_bn: bool
     """
-    fuse_consecutive_layers(mod, PITConv1d, nn.BatchNorm1d,
-                            lambda x, y: remove_bn_inplace(x, y, fold_bn))
-    fuse_consecutive_layers(mod, PITConv2d, nn.BatchNorm2d,
-                            lambda x, y: remove_bn_inplace(x, y, fold_bn))
-    fuse_consecutive_layers(mod, PITLinear, nn.BatchNorm1d,
-                            lambda x, y: remove_bn_inplace(x, y, fold_bn))
+    # a layer + BatchNorm pair invoked more than once per forward pass is met once per call site,
+    # but must be fused (and, in particular, folded) only once
+    fused = set()
+
+    def fuse_once(lin: nn.Module, bn: nn.Module):
+        if (id(lin), id(bn)) not in fused:
+            fused.add((id(lin), id(bn)))
+            remove_bn_inplace(lin, bn, fold_bn)
+
+    fuse_consecutive_layers(mod, PITConv1d, nn.BatchNorm1d, fuse_once)
+    fuse_consecutive_layers(mod, PITConv2d, nn.BatchNorm2d, fuse_once)
+    fuse_consecutive_layers(mod, PITLinear, nn.BatchNorm1d, fuse_once)
 
 
 def register_input_features(mod: fx.GraphModule):
